@@ -290,6 +290,16 @@ Proof.
     + destruct H as [[p [u [W [G _]]]] _]. rewrite (Hn _ _ W) in G. discriminate.
 Qed.
 
+Theorem bfs_complete_total g start ord :
+  wf_graph g -> (start < g_n g)%nat -> ord_perm ord ->
+  ((exists vis, bfs g start ord = NoPlan vis) <-> no_goal_reachable g start) /\
+  bfs g start ord <> OutOfFuel /\ bfs g start ord <> Broken.
+Proof.
+  intros Hwf Hs Ho. split; [apply bfs_complete; auto|].
+  pose proof (bfs_total g start ord Hwf Hs Ho) as H.
+  destruct (bfs g start ord); split; try discriminate; contradiction.
+Qed.
+
 (* non-vacuity: the hypotheses hold on the example graph, and the loop does return the 2-step path there *)
 Example bfs_example :
   wf_graph ex_graph /\ (0 < g_n ex_graph)%nat /\ ord_perm (fun _ l => l) /\
